@@ -6,6 +6,22 @@ from vlib import hexs, unhex
 from props_tree import gen_check, tree_correspondence, run_oracle
 
 
+def _needs_driver(default=None):
+    """a helper that runs the extracted model: when the driver could not be built from the current tree it is skipped (the broken build is
+    already recorded as broken obligations by std_coq); the implementation-level oracle still searches for a concrete failing input"""
+    def deco(fn):
+        def w(res, *a, **k):
+            try:
+                return fn(res, *a, **k)
+            except vlib.DriverMissing:
+                res.extra.setdefault("skipped_without_driver", []).append(fn.__name__)
+                return default() if callable(default) else default
+        w.__name__ = fn.__name__
+        w.__doc__ = fn.__doc__
+        return w
+    return deco
+
+
 def report_oracle(res, pid, cases, what):
     fails, stat = run_oracle(pid, cases)
     n = 0
@@ -25,6 +41,7 @@ def report_oracle(res, pid, cases, what):
     return fails
 
 
+@_needs_driver()
 def sql_correspondence(res, cases, label="printer"):
     tbl = os.path.join(vlib.BUILD, "isprint-%s-%d.tbl" % (res.pid, os.getpid()))   # per run: checks may run side by side
     import atexit
@@ -43,7 +60,7 @@ def sql_correspondence(res, cases, label="printer"):
 
 def c04(res, st, std_coq):
     std_coq(res, "C04", st, ("theories/GenChecks.v",))
-    if not (st["go"] and st["driver"]):
+    if not st["go"]:
         return
     rnd = random.Random(res.seed)
     gen_check(res, ("schema_ok", "pos_tables_ok", "walk_table_ok", "printer_ok"))
@@ -52,17 +69,21 @@ def c04(res, st, std_coq):
     cases += gens.sentence_cases(rnd, 3000 if q else 60000)
     cases += gens.probe_cases()
     cases += [("ParseStatement", s) for s in gens.regression("C04")] + [("ParseExpr", s) for s in gens.regression("C04")]
-    g, mism = sql_correspondence(res, cases)
-    r = tree_correspondence(res, cases, [("wt", ["parse-dump"], ["tree-wt"])])
-    ill = [l for l in r["wt"][1] if "ILL-TYPED" in l]
-    res.obligation("every returned tree is well typed against the schema regenerated from ast.go (%d trees)" % len(r["wt"][1]), not ill, "\n".join(ill[:3]))
+    sc = sql_correspondence(res, cases)
+    g = sc[0] if sc else []
+    try:
+        r = tree_correspondence(res, cases, [("wt", ["parse-dump"], ["tree-wt"])])
+        ill = [l for l in r["wt"][1] if "ILL-TYPED" in l]
+        res.obligation("every returned tree is well typed against the schema regenerated from ast.go (%d trees)" % len(r["wt"][1]), not ill, "\n".join(ill[:3]))
+    except vlib.DriverMissing:
+        res.extra.setdefault("skipped_without_driver", []).append("tree-wt")
     fails = report_oracle(res, "C04", cases, "SQL()/Pos()/End()/Walk panics on a returned tree")
     # a node on which the real SQL() panics is a concrete violation whatever the oracle says
     for (e, s), line in zip(cases, g):
         if ":X" in line and not any(f["input_hex"] == hexs(s) for f in fails):
             res.violation("SQL() panics on a node of the returned tree", {"kind": "c04-sql-panic", "entry": e, "input_hex": hexs(s), "nodes": line[-300:]})
     bad_trees = sum(1 for l in g if "Bad" in l)
-    res.add_cases(len(cases), len(set(cases)), [g[0][:300], g[len(g) // 2][:300]])
+    res.add_cases(len(cases), len(set(cases)), [g[0][:300], g[len(g) // 2][:300]] if g else [])
     res.extra["trees_with_bad_nodes"] = bad_trees
     res.cov["rule"] = ("corpus files under every matching entry point, type expressions, seeded byte/token mutations (error recovery, Bad nodes), token soups, "
                        "';'-joined lists; for every node of every returned tree SQL() (panics included) is compared with the extracted printer "
@@ -75,7 +96,7 @@ def c04(res, st, std_coq):
 
 def c01(res, st, std_coq):
     std_coq(res, "C01", st, ("theories/GenChecks.v",))
-    if not (st["go"] and st["driver"]):
+    if not st["go"]:
         return
     rnd = random.Random(res.seed)
     info = gen_check(res, ("printer_ok", "separators_ok"))
@@ -113,6 +134,7 @@ def c01(res, st, std_coq):
                         "derived fields (IntLiteral.Base, SetNoSkipRange.NoSkipRange, BadQueryExpr.Hint, BadNode range) are exempt from the field-use obligation"]
 
 
+@_needs_driver()
 def fragment_roundtrip_check(res, rnd, q):
     """the hypotheses of C01_fragment_roundtrip on real data: for every enumerated operator tree x (<= 3 operators, minimal and full
     spelling, + random deeper ones): the model's tree for x (positions erased) is canonical (canb), and the tokens the real lexer
@@ -145,7 +167,7 @@ def fragment_roundtrip_check(res, rnd, q):
 
 def c18(res, st, std_coq):
     std_coq(res, "C18", st, ("theories/GenChecks.v",))
-    if not (st["go"] and st["driver"]):
+    if not st["go"]:
         return
     rnd = random.Random(res.seed)
     info = gen_check(res, ("globals_ok",))
@@ -204,7 +226,7 @@ def c03(res, st, std_coq, lexer_correspondence):
     res.theorems += cp["theorems"]
     for t in cp["theorems"]:
         res.obligation("theorem " + t, cp["ok"], cp["log"][-500:])
-    if not (st["go"] and st["driver"]):
+    if not st["go"]:
         return
     rnd = random.Random(res.seed)
     gen_check(res, ("escape_ok",))
@@ -214,7 +236,11 @@ def c03(res, st, std_coq, lexer_correspondence):
         res.violation("lexer: " + why, {"kind": "lex-c03", "input_hex": h, "why": why})
     # lexer model (both modes) vs Lexer: outcome class and error range, exhaustive short strings + samples
     for mode, label in (("p", "C03 lexer, panic mode (outcome, error range)"), ("np", "C03 lexer, recovery mode (never fails)")):
-        mism, _ = lexer_correspondence(res, mode, "c03", "-", label, fail, exh_len=4 if q else 5)
+        try:
+            mism, _ = lexer_correspondence(res, mode, "c03", "-", label, fail, exh_len=4 if q else 5)
+        except vlib.DriverMissing:
+            res.extra.setdefault("skipped_without_driver", []).append("lexer_correspondence " + mode)
+            continue
         seen = set()
         for (h, x, y) in mism:
             # the real lexer died with a runtime panic, looped or did not return: that input is a failing input of C03
@@ -289,7 +315,7 @@ def skeleton_discipline(res):
 
 def c09(res, st, std_coq):
     std_coq(res, "C09", st, ("theories/GenChecks.v",))
-    if not (st["go"] and st["driver"]):
+    if not st["go"]:
         return
     rnd = random.Random(res.seed)
     gen_check(res, ("escape_ok",))
@@ -428,7 +454,7 @@ def sampled(res, st, std_coq, extra_vo=()):
     else:
         res.extra["theorems_pending"] = True
         res.obligation("go build + driver", st["go"] and st["driver"], st["log"])
-    if not (st["go"] and st["driver"]):
+    if not st["go"]:
         return
     rnd = random.Random(res.seed)
     q = res.tier == "quick"
@@ -526,6 +552,7 @@ def list_cases(rnd, q):
     return out
 
 
+@_needs_driver(lambda: ({}, []))
 def frag_correspondence(res, inputs, label):
     """extracted fragment parser (Parse/ExprModel.v) on the real lexer's tokens vs ParseExpr: same tree (all fields, positions
     included), same verdict; inputs outside the fragment (UNSUP) or not lexing are skipped and counted"""
@@ -574,6 +601,7 @@ def frag_correspondence(res, inputs, label):
     return st, bad
 
 
+@_needs_driver()
 def type_correspondence(res, rnd, q):
     """extracted model of the whole type grammar (Parse/TypeModel.v) on the real lexer's tokens vs ParseType: same verdict, same
     tree with every position, same position of the first error"""
@@ -614,6 +642,7 @@ def type_correspondence(res, rnd, q):
     res.add_cases(len(inputs), st["ok"] + st["err"], [])
 
 
+@_needs_driver()
 def type_recover_correspondence(res, rnd, q):
     """the TOTAL model of ParseType (Parse/TypeRecover.v: grammar + error recovery) on the real lexer's tokens vs ParseType, on accepted
     and rejected inputs alike: the whole tree with its BadType nodes and their tokens, the position of EVERY recorded error, the number of
@@ -650,6 +679,7 @@ def type_recover_correspondence(res, rnd, q):
     res.add_cases(len(inputs), st["clean"] + st["recovered"], [])
 
 
+@_needs_driver()
 def type_roundtrip_check(res, rnd, q):
     """the hypotheses of type_roundtrip on real data: for every accepted type input x: the model's tree for x is well formed (wf_tyb) and the
     tokens the real lexer produces for SQL(ParseType(x)) -- every '>>' read as two closing brackets -- agree with the spelling of that tree"""
@@ -676,6 +706,7 @@ def type_roundtrip_check(res, rnd, q):
     res.add_cases(len(pairs), cnt.get("OK", 0), [])
 
 
+@_needs_driver()
 def stmt_family_correspondence(res, rnd, q):
     """the statement family of Parse/StmtModel.v (sixteen DDL statements, with the recover points of parseDDL / parseStatementInternal) under
     ParseDDL, ParseStatement and -- through the list loop of Parse/ListLoop.v -- ParseDDLs, ParseStatements, on the real lexer's tokens: number
@@ -719,6 +750,7 @@ C10_TARGETED = [b"CAST(1 AS ARRAY<STRUCT<x y>>)", b"CAST(1 AS ARRAY<STRUCT<a INT
                 b"SELECT (1 'abc", b"SELECT 1a, 2", b"SELECT [1 2] OFFSET 3", b"SELECT {a: 1 2} FROM t", b"SELECT IF(a b, c, d) x y"]
 
 
+@_needs_driver()
 def recovery_correspondence(res, cases):
     """the Bad nodes of real trees vs the Bad nodes predicted by the handler model (Parse/Recovery.v) run from the state of the
     recovery-mode scan whose current token starts at NodePos"""
@@ -743,6 +775,7 @@ def recovery_correspondence(res, cases):
                                             "note": "NOSTATE = NodePos is not the start of a token of the recovery-mode scan (second half of a split '>>'); not compared"}
 
 
+@_needs_driver()
 def respell_fragment(res, rnd, q):
     """C16 on the expression fragment: (1) the model the theorems are about is ParseExpr on the sampled inputs AND on their re-spellings,
     (2) the theorems' hypothesis (same_tokens_ci, decidable) holds between the real lexer's token list of each input and of each
@@ -797,7 +830,7 @@ def frag_inputs(rnd, q):
 
 def c07(res, st, std_coq):
     std_coq(res, "C07", st, ("theories/GenChecks.v", "theories/Parse/RoundTrip.v"))
-    if not (st["go"] and st["driver"]):
+    if not st["go"]:
         return
     rnd = random.Random(res.seed)
     gen_check(res, ("printer_ok",))
